@@ -16,14 +16,16 @@ BOUNDS = {
         full=[dict(N=4, K=2, depths=(1, 2, 3), modes=("r0", "rp"), grouped=(False,), hi=True, kinds=hitx.KINDS_HI),
               dict(N=4, K=2, depths=(-1, 0, 1, 2, 3), modes=hitx.MODES, grouped=(False, True)),
               dict(N=4, K=3, depths=(2,), modes=("r0",), grouped=(False,)),
-              dict(N=4, K=3, depths=(1, 2), modes=("r0", "rp"), grouped=(False,), kinds=hitx.KINDS_LBL)],
+              dict(N=4, K=3, depths=(1, 2), modes=("r0", "rp"), grouped=(False,), kinds=hitx.KINDS_LBL),
+              dict(N=4, K=2, depths=(1, 2), modes=("r0", "rp", "rk"), grouped=hitx.HOWS)],
         streams="quick"),
     "thorough": dict(
         full=[dict(N=4, K=3, depths=(1, 2, 3), modes=("r0", "rp"), grouped=(False,), hi=True, kinds=hitx.KINDS_HI),
               dict(N=5, K=2, depths=(-1, 0, 1, 2, 3, 4), modes=hitx.MODES, grouped=(False, True)),
               dict(N=4, K=3, depths=(1, 2, 3), modes=hitx.MODES, grouped=(False,)),
               dict(N=5, K=3, depths=(2,), modes=("r0", "rk"), grouped=(False,)),
-              dict(N=5, K=3, depths=(1, 2), modes=("r0", "rp"), grouped=(False,), kinds=hitx.KINDS_LBL)],
+              dict(N=5, K=3, depths=(1, 2), modes=("r0", "rp"), grouped=(False,), kinds=hitx.KINDS_LBL),
+              dict(N=4, K=3, depths=(1, 2), modes=("r0", "rp", "rk"), grouped=hitx.HOWS)],
         streams="thorough"),
 }
 
